@@ -261,6 +261,10 @@ theorem step_rel (gs : Grids) {so : OState} {sn : NState} (h : Rel so sn) (st : 
   cases st with
   | assign x e =>
     simp only [stepO, stepN]
+    cases hiv : e.isVar with
+    | true => simp [StepRel]
+    | false =>
+    simp only [Bool.false_eq_true, if_false]
     rcases dataOf_eq_cases (evalON h e hs) with ⟨err, h1, h2⟩ | ⟨a, t, u, h1, h2⟩
     · simp [h1, h2, StepRel, Except.map]
     · simp only [h1, h2, StepRel, Except.map]
